@@ -238,6 +238,8 @@ class HistogramDensityMethod(BatchDetector):
         )  # TODO: subsequent operations expect dataframes, not numpy arrays
         # Initialize attributes
         self.reference = copy.deepcopy(X)
+        # statistics restart here, as they do after a drift
+        self._lambda = self.total_batches
         self.reset()
 
     def update(self, X, y_true=None, y_pred=None):
